@@ -802,9 +802,13 @@ fn burn_by_refused_requests(conn: &mut Conn<'_, '_>, n: u32) {
             break;
         }
     }
+    let dead = !conn.is_connected();
     with(|w| {
         w.benign = was_benign;
-        w.expect = None;
+        if dead {
+            // whatever ended the handle here was consumed by a refused request, not judged
+            w.expect = None;
+        }
     });
 }
 
